@@ -50,7 +50,7 @@ LIB_CLASSES = ["PhaseSpaceFactor", "PhaseSpaceFactorAbs", "PhaseSpaceFactorCompl
                "EqualMassPhaseSpaceFactor"]
 N_FORMULAS = 4
 SYM_ORDER = ["s", "m", "Gamma", "gamma", "beta", "m_a", "m_b", "K", "P", "rho"]
-CALL_CAP_S = 90
+CALL_CAP_S = 150
 
 # angular momenta / radii: spec -> (object factory, numeric value)
 L_TABLE = ["int:0", "int:1", "int:2", "sym:L_a", "sym:L_b", "sym2:L_a"]
@@ -598,19 +598,24 @@ def run_history_here(payload: dict) -> list:
         t0 = time.time()
         r: dict = {"key": c["key"]}
         signal.alarm(int(payload.get("cap", CALL_CAP_S)))
+        stage = "formulate"
         try:
             m = real_formulate(reg, c)
+            stage = "inspect"
             r["digest"] = canonical_digest(m, reg)
             r["line"], r["occ_bad"] = occurrences_by_identity(m, reg, c)
             if payload.get("numeric", True):
+                stage = "evaluate"
                 rng = random.Random(f"C10hist:{payload.get('seed', 0)}:{c['key']}")
                 r["residuals"] = residual_check(m, reg, c, rng, int(payload.get("points", 1)))
         except _Timeout:
-            r["error"] = f"timeout: the call did not finish within {payload.get('cap', CALL_CAP_S)} s"
+            r["error" if stage != "evaluate" else "eval_error"] = (
+                f"timeout in stage '{stage}': not finished within {payload.get('cap', CALL_CAP_S)} s")
         except Exception as e:  # noqa: BLE001
             import traceback
 
-            r["error"] = "".join(traceback.format_exception(type(e), e, e.__traceback__))[-1200:]
+            r["error" if stage != "evaluate" else "eval_error"] = f"stage '{stage}': " + "".join(
+                traceback.format_exception(type(e), e, e.__traceback__))[-1200:]
         finally:
             signal.alarm(0)
         r["secs"] = round(time.time() - t0, 2)
@@ -724,7 +729,7 @@ def random_history(rng, n_calls: int, max_poles: int = 2):
 # --------------------------------------------------------------------------- parent side
 
 
-def run_jobs(jobs: dict, max_parallel: int = 8, job_cap_s: int = 420) -> dict:
+def run_jobs(jobs: dict, max_parallel: int = 8, job_cap_s: int = 1200) -> dict:
     """jobs: name -> payload. Returns name -> list of per-call results, or {"infra": text}."""
     import tempfile
 
@@ -860,6 +865,9 @@ def run(chk, rng, tier: str, seed: int):  # noqa: C901, PLR0912, PLR0915
                 bad.append({"what": "an argument passed to formulate() is not the only one that occurs in the result "
                                     "(call history in one process)", **ctx, "found": r["occ_bad"][:6]})
             # (b) residual with the passed objects
+            if r.get("eval_error"):
+                bad.append({"what": "the result cannot be evaluated numerically with the arguments that were passed "
+                                    "(call history in one process)", **ctx, "error": r["eval_error"]})
             for rr in r.get("residuals", []):
                 if "deviation" not in rr:
                     continue
@@ -920,6 +928,15 @@ def run(chk, rng, tier: str, seed: int):  # noqa: C901, PLR0912, PLR0915
                  "(notes/findings_C10.md)", "call": r["key"], "foreign_occurrences": len(r.get("occ_bad", [])),
         "max_deviation": max([x.get("deviation", 0) for x in r.get("residuals", [])] or [0]),
         "error": r.get("error")} for r in obs])
+    # the unchanged library really violates "the factor passed by the caller is the only one that occurs" on this
+    # history: a genuine defect, listed in known_findings.json (a different class of failing history still alarms)
+    for r in obs:
+        if r.get("occ_bad") or r.get("error"):
+            chk.failing_input({"class": "two phase-space classes with one qualified name in one process"},
+                              {"input": {"history": "obs:twin-classes", "call": r["key"]},
+                               "observed": {"foreign_occurrences": r.get("occ_bad", [])[:4], "error": r.get("error")},
+                               "expected": "every EnergyDependentWidth.phsp_factor is the class passed to THIS call",
+                               "reproducer": "notes/findings_C10.md"})
     chk.info("history_oracle", {
         "histories": [{"name": n, "calls": len(h)} for n, h in hists], "calls": n_calls,
         "distribution_class_x_factor_kind": dist, "residual_points": n_resid, "worst_deviation": worst,
@@ -946,7 +963,7 @@ def replay_history(case: dict) -> int:
     print(json.dumps({"call": c["key"], "in_history": r.get("line"), "fresh_process": fr.get("line"),
                       "foreign_occurrences": r.get("occ_bad"), "deviations": devs,
                       "same_as_fresh": r.get("digest") == fr.get("digest"), "error": r.get("error")}, indent=1))
-    ok = (not r.get("error") and not r.get("occ_bad") and all(d <= RESID_TOL for d in devs)
+    ok = (not r.get("error") and not r.get("eval_error") and not r.get("occ_bad") and all(d <= RESID_TOL for d in devs)
           and r.get("digest") == fr.get("digest"))
     if not ok:
         print("VIOLATION property=C10 replay=<given file>")
